@@ -27,7 +27,7 @@ def gen_value(rng, comp):
         if base == "search" and r < 0.5:
             v = rng.choice(["?", "??", "?"]) + v
         if base == "hash" and r < 0.5:
-            v = rng.choice(["#", "#?", "#"]) + v          # never "##": process_hash asserts (development builds) that one '#' at most leads
+            v = rng.choice(["#", "#?", "##", "#"]) + v      # "##": known_findings fixed C18 cd21e04 (a development-check assertion fired)
         return v
     if comp in HELPERS:
         # ASCII only (the escapers assert it); pattern / regexp syntax, brackets, slashes at the first two positions
